@@ -37,6 +37,7 @@ fn main() {
   match id {
     "C01" => drive::c01::check(Ctx::new(id, &tier, "exploration"), replay),
     "C02" => drive::c02::check(Ctx::new(id, &tier, "exploration"), replay),
+    "C03" => drive::c03::check(Ctx::new(id, &tier, "exploration"), replay),
     "C06" => drive::c06::check(Ctx::new(id, &tier, "exploration"), replay),
     "C07" => drive::c07::check(Ctx::new(id, &tier, "exploration"), replay),
     "C09" => drive::c09::check(Ctx::new(id, &tier, "model_checking"), replay),
